@@ -113,6 +113,7 @@ type Loop struct {
 
 type FnCtx struct {
 	filling   []fillRec
+	pendingInv []pendInv
 	fillTypes map[string]bool
 	V    *Verifier
 	U    *Universe
